@@ -6,6 +6,7 @@
 
 mod arena;
 mod contain;
+mod count;
 mod interpose;
 mod snap;
 mod synth;
@@ -46,6 +47,13 @@ fn run_one(scv: &Value, sh: &Shared) -> Value {
             };
             run_contained(120, || synth::execute(&sc, sh))
         }
+        "count" => {
+            let sc: count::CountScenario = match serde_json::from_value(scv.clone()) {
+                Ok(s) => s,
+                Err(e) => return json!({"invalid": format!("{e}")}),
+            };
+            run_contained(120, || count::execute(&sc, sh))
+        }
         other => return json!({"invalid": format!("unknown family {other}")}),
     };
     match end {
@@ -61,14 +69,24 @@ fn run_one(scv: &Value, sh: &Shared) -> Value {
     }
 }
 
+fn generate(family: &str, profile: &str, seed: u64, index: u64) -> Value {
+    match family {
+        "synth" => serde_json::to_value(synth::generate(profile, seed, index)).unwrap(),
+        "count" => serde_json::to_value(count::generate(profile, seed, index)).unwrap(),
+        f => panic!("unknown family {f}"),
+    }
+}
+
 fn main() {
     contain::ensure_no_aslr();
     let args: Vec<String> = std::env::args().collect();
-    std::panic::set_hook(Box::new(|_| {}));
+    std::panic::set_hook(Box::new(|_| {
+        count::PANICS.fetch_add(1, std::sync::atomic::Ordering::SeqCst);
+    }));
     let sh = Shared::new();
     match args.get(1).map(|s| s.as_str()) {
         Some("gen") => {
-            let sc = synth::generate(arg(&args, "--profile").unwrap(), arg(&args, "--seed").unwrap_or("1").parse().unwrap(), arg(&args, "--index").unwrap_or("0").parse().unwrap());
+            let sc = generate(arg(&args, "--family").unwrap_or("synth"), arg(&args, "--profile").unwrap(), arg(&args, "--seed").unwrap_or("1").parse().unwrap(), arg(&args, "--index").unwrap_or("0").parse().unwrap());
             println!("{}", serde_json::to_string_pretty(&sc).unwrap());
         }
         Some("replay") => {
@@ -80,6 +98,7 @@ fn main() {
         }
         Some("run") => {
             let profile = arg(&args, "--profile").unwrap().to_string();
+            let family = arg(&args, "--family").unwrap_or("synth").to_string();
             let seed: u64 = arg(&args, "--seed").unwrap_or("1").parse().unwrap();
             let count: u64 = arg(&args, "--count").unwrap().parse().unwrap();
             let shard = arg(&args, "--shard").unwrap_or("0/1");
@@ -104,7 +123,7 @@ fn main() {
             let mut samples = Vec::new();
             let mut idx = si;
             while idx < count {
-                let scv: Value = serde_json::to_value(synth::generate(&profile, seed, idx)).unwrap();
+                let scv: Value = generate(&family, &profile, seed, idx);
                 let out = run_one(&scv, &sh);
                 if out.get("harness_error").is_some() {
                     println!("HARNESS-ERROR vnative: scenario {idx} produced no report: {out}");
